@@ -29,3 +29,9 @@ def is_opaque(x):
 def items_of(it):
     """the (remaining) items of an iterator or sequence, as a list"""
     return list(it)
+
+
+def is_item(list_item, obj):
+    """`list_item` (an element read from a list of objects) is the object `obj`.  In proofs symbolic lists of
+    objects hold handles (pyvc.mlist.handle_of); natively this is identity."""
+    return list_item is obj
